@@ -25,7 +25,9 @@ ENCODINGS = ALL_ENCODINGS[:4]                     # utf-8, ascii, latin-1, utf-1
 EXTRA_ENCODINGS = ALL_ENCODINGS[4:]               # one of these per case, in rotation (utf-32 and single-byte code pages)
 TRUSTED = [
     'modelled, not verified: genshi/output.py EmptyTagFilter, NamespaceFlattener, XMLSerializer, encode(); '
-    'genshi/input.py XMLParser callbacks and _coalesce (hand-written Lean model tied by correspondence on generated streams)',
+    'genshi/input.py XMLParser._handle_* and _coalesce (streams cbs: made-up callback sequences on the real methods; cbs-expat: expat\'s '
+    'recorded callbacks for generated documents), ET() (stream et), XML()+EmptyTagFilter as parseSource (streams reparse, reparse-source, '
+    'reparse-emptytext) — hand-written Lean models tied by correspondence; positions, _build_foreign and encoding errors are not modelled',
     'not modelled, only exercised: expat/pyexpat (both as genshi\'s tokenizer and as the oracle\'s independent reader), '
     'the codecs (utf-8/16/32, ascii, latin-1, iso-8859-2/-7/-15, cp1251, cp1252, cp437, koi8-r, mac-roman) — the model sees an encoding as the '
     'predicate "representable", extracted by running every scalar value through the codec\'s encoder',
